@@ -36,4 +36,42 @@ theorem C05_noun_entry_applies (c : Cfg) (d : Dict) (stem rd : Str) (v : NounVar
     ∃ d', mergeEntry c d ⟨stem, rd, .noun v⟩ = some d' := by
   simp [mergeEntry, entryToWords, toForms]
 
+/-! ## every request history (Model/Server `Op`, `stepOp`, `runOps`) -/
+
+/-- **No history can make the server refuse a conversion**: after any sequence of requests and background
+steps — failed ones included — a conversion request for any input in any context is answered. -/
+theorem C05_history_convert_answered (c : Cfg) (s0 : State) (ops : List Op) (ctx : Ctx) (input : Str) :
+    ∃ r, convert c (runOps c s0 ops) ctx input = some r :=
+  C05_convert_total c _ ctx input
+
+/-- **No history can poison the answers**: what a conversion answers depends on the running dictionary and
+the learned counts only — not on open sessions, ids handed out, queued entries or what was saved. A
+freshly started server with the same dictionary and learned data answers identically. -/
+theorem C05_answer_depends_on_dict_and_counts (c : Cfg) (s s' : State) (ctx : Ctx) (input : Str)
+    (hd : s.dict = s'.dict) (hf : s.freq = s'.freq) :
+    (convert c s ctx input).map (·.2.2) = (convert c s' ctx input).map (·.2.2) := by
+  unfold convert
+  rw [hd, hf]
+  cases getCandidates c.tables input s'.dict ctx (toKkcFreq s'.freq) c.nCandidates c.fuel <;> rfl
+
+/-- Requests that fail (a refused or panicking registration, a confirmation of an unknown session or
+candidate) change neither the dictionary nor the learned counts. -/
+theorem C05_failed_requests_change_nothing (c : Cfg) (s : State) :
+    (∀ k r w, register c s k r w = none → (stepOp c s (.register k r w)) = s) ∧
+    (∀ sid cid now, s.sessions.find? (·.sid == sid) = none →
+      (confirm c s sid cid now).dict = s.dict ∧ (confirm c s sid cid now).freq = s.freq ∧
+      (confirm c s sid cid now).userDict = s.userDict ∧ (confirm c s sid cid now).pending = s.pending) ∧
+    (∀ sid now sess, s.sessions.find? (·.sid == sid) = some sess →
+      ∀ cid, (cid.bind fun i => sess.cands[i]?) = none →
+      (confirm c s sid cid now).dict = s.dict ∧ (confirm c s sid cid now).freq = s.freq ∧
+      (confirm c s sid cid now).userDict = s.userDict ∧ (confirm c s sid cid now).pending = s.pending) := by
+  refine ⟨?_, ?_, ?_⟩
+  · intro k r w h; simp [stepOp, h]
+  · intro sid cid now h
+    unfold confirm popSession
+    simp [h]
+  · intro sid now sess h cid hc
+    unfold confirm popSession
+    simp [h, hc]
+
 end Chokan.Props.C05
